@@ -5,6 +5,7 @@ import (
 	"context"
 	"encoding/json"
 	"fmt"
+	"log"
 	"os"
 	"runtime"
 	"strings"
@@ -95,10 +96,11 @@ func stdioLine(kind string, i int) (text string, end string, msg interface{}, qu
 }
 
 type stdioObs struct {
-	logs    map[string][]string
-	emitted []string
-	results int
-	err     string
+	panicked bool
+	logs     map[string][]string
+	emitted  []string
+	results  int
+	err      string
 }
 
 func stdioCrewSetup(c *Crew) error {
@@ -170,6 +172,14 @@ const stdioEnd = "END-OF-INPUT"
 
 var stdioHorizon = 90 * time.Second
 
+func init() {
+	if os.Getenv("VERIF_DEBUG") != "" {
+		stdioHorizon = 5 * time.Second
+		f, _ := os.OpenFile("/tmp/siodbg.log", os.O_APPEND|os.O_CREATE|os.O_WRONLY, 0644)
+		log.SetOutput(f)
+	}
+}
+
 // sigWriter collects what Stdio prints and signals when the marker has been printed.
 type sigWriter struct {
 	mu   sync.Mutex
@@ -211,6 +221,12 @@ func stdioGoroutines() int {
 
 // stdioViaHost: the same lines as text on the input of a real Stdio, processed by the real Crew.Loop.
 func stdioViaHost(text string, echo bool) stdioObs {
+	return stdioViaHostWith(text, echo, stdioCrewSetup, "a")
+}
+
+// stdioViaHostWith: the crew is prepared by setup; endTo names the (recorder, emitting) machine that answers
+// the end-of-input marker.
+func stdioViaHostWith(text string, echo bool, setup func(*Crew) error, endTo string) stdioObs {
 	var o stdioObs
 	ctx, cancel := context.WithCancel(context.Background())
 	defer cancel()
@@ -226,14 +242,17 @@ func stdioViaHost(text string, echo bool) stdioObs {
 		o.err = err.Error()
 		return o
 	}
-	if err := stdioCrewSetup(c); err != nil {
+	if err := setup(c); err != nil {
 		o.err = err.Error()
 		return o
 	}
 	done := make(chan struct{})
+	loopPanic := ""
 	go func() {
 		defer close(done)
-		c.Loop(ctx)
+		if p, pm, where := vh.Trap(func() { c.Loop(ctx) }); p {
+			loopPanic = "panic in Crew.Loop: " + pm + " @" + where
+		}
 	}()
 	// the end of the input: Stdio closes InputEOF (siostd waits for exactly that).  A reader that has gone away
 	// without closing it is seen from the goroutine dump (deterministic); the horizon is for a reader that is stuck
@@ -244,6 +263,9 @@ WAIT:
 		select {
 		case <-s.InputEOF:
 			break WAIT
+		case <-done:
+			o.err, o.panicked = loopPanic, true
+			return o
 		case <-time.After(2 * time.Millisecond):
 		}
 		if stdioGoroutines() < 2 {
@@ -265,12 +287,26 @@ WAIT:
 	// that has seen the cancellation), and everything before it has been printed
 	{
 		select {
-		case c.in <- map[string]interface{}{"to": "a", "trail": stdioEnd, "n": 1}:
+		case <-done:
+			o.err, o.panicked = loopPanic, true
+			return o
+		case c.in <- map[string]interface{}{"to": endTo, "trail": stdioEnd, "n": 1}:
 			select {
+			case <-done:
+				o.err, o.panicked = loopPanic, true
+				return o
 			case <-out.seen:
 			case <-time.After(stdioHorizon):
 				o.err = "the result of the last message was never printed"
 				if os.Getenv("VERIF_DEBUG") != "" {
+					for id, m := range c.Machines {
+						_, jerr := json.Marshal(m.State)
+						keys := ""
+						for k := range m.State.Bs {
+							keys += k + " "
+						}
+						log.Printf("MACHINE %s node=%s keys=%s marshal=%v changed=%v", id, m.State.NodeName, keys, jerr, c.changed[id] != nil)
+					}
 					buf := make([]byte, 1<<16)
 					o.err += string(buf[:runtime.Stack(buf, true)]) + "OUT:" + out.String()
 				}
